@@ -105,6 +105,14 @@ func funcCandidateCases(run *Run, r *rand.Rand, n int) {
 				probes = append(probes, probe{fmt.Sprintf("a3 = wrap%d(%s", ti, p), p, t})
 			}
 		}
+		// the key of an index expression is a string, whatever the type of the value around it
+		for ti := range funcTypePool {
+			for _, p := range prefixes() {
+				if p != "" {
+					probes = append(probes, probe{fmt.Sprintf("a%d = zz[%s]", ti, p), p, cty.String})
+				}
+			}
+		}
 		// second and later arguments of a variadic function
 		for _, p := range prefixes() {
 			probes = append(probes, probe{fmt.Sprintf("a3 = wrapv(\"s\", %s", p), p, vt})
@@ -115,6 +123,10 @@ func funcCandidateCases(run *Run, r *rand.Rand, n int) {
 			closed := (r.Intn(2) == 0 || pb.prefix == "") && strings.Contains(pb.src, "(")
 			src := pb.src
 			cut := len(src)
+			if strings.HasSuffix(src, "]") {
+				cut--
+				closed = false
+			}
 			if closed {
 				src += strings.Repeat(")", strings.Count(pb.src, "(")-strings.Count(pb.src, ")"))
 			}
